@@ -103,6 +103,7 @@ type Exec struct {
 	nondets     []nondetRec
 	nondetCount map[string]int
 	steps       int
+	checkSeq    int
 	depth       int
 	cur         *frame
 	notes       []string
@@ -222,6 +223,7 @@ func (e *Exec) runPath(fn *ssa.Function) {
 	e.nondets = e.nondets[:0]
 	e.nondetCount = map[string]int{}
 	e.steps = 0
+	e.checkSeq = 0
 	e.depth = 0
 	e.cur = nil
 	e.notes = nil
@@ -448,9 +450,14 @@ func parseOneValue(txt string) uint64 {
 
 // check is an assertion: c must hold on every value of the current path.
 func (e *Exec) check(c *Term, label string) {
+	e.checkSeq++
+	aav := fmt.Sprintf("assume-after-violation:%d", e.checkSeq)
 	if !e.fresh {
-		// replayed prefix: already checked on an earlier run; only replay the assumption
-		e.assume(c)
+		// replayed prefix: already checked on an earlier run. An assumption was only
+		// recorded if the check failed then (the next trail entry says so).
+		if e.pos < len(e.trail) && e.trail[e.pos].what == aav && !c.IsFalse() {
+			e.choose(aav, nil, nil)
+		}
 		return
 	}
 	e.assertLabels[label]++
@@ -461,10 +468,10 @@ func (e *Exec) check(c *Term, label string) {
 	e.Obligations++
 	var r SatResult
 	if c.IsFalse() {
-		r = e.sol.Check()
-		if r == Sat {
-			e.recordViolation(label)
-		}
+		// the path condition is known satisfiable: certain violation on this path.
+		// The path continues (without assuming false) so later assertions are still checked.
+		e.recordViolation(label)
+		return
 	} else {
 		e.sol.Push()
 		e.sol.Assert(e.ts.Not(c))
@@ -477,15 +484,15 @@ func (e *Exec) check(c *Term, label string) {
 	switch r {
 	case Unsat:
 		e.Discharged++
-		// PC ∧ ¬c is unsat and PC is sat, hence PC ∧ c is sat: no query needed
-		if !c.IsFalse() {
-			e.choose2("assume", []uint64{1}, []*Term{c}, false, 0)
-		}
+		// c is implied by the path condition: nothing to add
 		return
 	case Unknown:
 		e.Unknowns++
 	}
-	e.assume(c)
+	if c.IsFalse() {
+		e.abort("infeasible", "assume false")
+	}
+	e.choose(aav, []uint64{1}, []*Term{c})
 }
 
 func (e *Exec) recordViolation(label string) {
@@ -568,6 +575,8 @@ func (e *Exec) require(cond *Term, kind string) {
 	}
 	e.check(cond, label)
 }
+
+var _ = Sat
 
 // ---------- function execution ----------
 
